@@ -18,7 +18,8 @@ def run(tier, seed):
     chk = core.Check('C18', tier, seed)
     rng = chk.rng
     chk.rule = ('real .xlsx files written with openpyxl: 1-8 sheets (hostile titles, some empty), sparse layouts (gaps of empty rows and columns, a far cell, first cell not '
-                'in A1), every value type openpyxl can store (int, float, bool, text, date-time, date, time), formulas and array formulas; read by Excel.parse and translated '
+                'in A1), every value type openpyxl can store (int, float, bool, text, date-time, date, time), formulas and array formulas, a sheet of plain references into the '
+                'other sheets\' bounding boxes, every third file with its <dimension> records overwritten by A1; read by Excel.parse and translated '
                 'by the Parser: for EVERY coordinate of the bounding box (+2) the value and type seen through the executor vs the generator\'s cell map and vs openpyxl\'s '
                 'normal (non read-only) mode; titles in workbook order; sizes = bounding box. distinct = distinct (workbook, sheet, coordinate)')
     chk.assumptions += ['openpyxl\'s read-only iter_rows() after reset_dimensions() yields row i+1 at index i and column j+1 at position j (padding contract): an explicit hypothesis of the '
@@ -69,8 +70,28 @@ def run(tier, seed):
                     else:
                         ws.cell(row=r, column=c, value=f)
                 plan.append((t, cells, formulas))
+            # a last sheet of probes: plain references into the other sheets' bounding boxes (blanks right of a short row, empty rows, the far corner)
+            probes = {}
+            for t, cells, formulas in plan:
+                if not cells:
+                    continue
+                W0, H0 = max(c for c, _ in cells), max(r for _, r in cells)
+                for _ in range(rng.randint(2, 6)):
+                    c, r = rng.randint(1, min(W0, 40) + 1), rng.randint(1, H0 + 1)
+                    if (c, r) in formulas:
+                        continue
+                    probes[(1, len(probes) + 1)] = ("='%s'!%s%d" % (t.replace("'", "''"), col(c), r), t, c, r)
+            if probes:
+                ws = wb.create_sheet('Probe sheet')
+                for (c, r), (f, _, _, _) in probes.items():
+                    ws.cell(row=r, column=c, value=f)
+                titles = titles + ['Probe sheet']
+                plan.append(('Probe sheet', {}, {k: v[0] for k, v in probes.items()}))
             path = os.path.join(d, 'wb%d.xlsx' % b)
             wb.save(path)
+            if b % 3 == 1:
+                stale_dimension(path)       # some writers leave <dimension ref="A1"/> whatever the sheet holds: the reader must not trust it
+                chk.count('stale-dimension-record')
             # what is stored: openpyxl normal mode
             nwb = load_workbook(path)
             stored = [{(c.column, c.row): c.value for row in nwb[t].iter_rows() for c in row if c.value is not None} for t in titles]
@@ -86,6 +107,17 @@ def run(tier, seed):
                 chk.violation({'why': 'sheet titles are not reported in workbook order', 'titles': titles, 'impl': repr(inst.get_titles()), 'stream': 'titles'})
             sizes = inst.get_sheets_size()
             parsed = Excel.parse(path)
+            for (pc, pr), (f, t, c, r) in probes.items():
+                got = outcome_any(lambda: ex.get_cell(Cell('Probe sheet', pc - 1, pr - 1)).value)
+                want_v = stored[titles.index(t)].get((c, r))
+                if isinstance(want_v, str) and want_v.startswith('='):
+                    continue
+                want = 'B' if want_v is None else enc_any(want_v)
+                chk.count('probe:' + ('blank' if want == 'B' else 'value'))
+                chk.seen((b, 'probe', t, c, r))
+                if got != want:
+                    chk.violation({'why': 'a reference to a cell inside the bounding box of a sparse sheet does not give the stored value (blank where nothing is stored)',
+                                   'formula': f, 'impl': got, 'stored': repr(want_v), 'stream': 'probe'})
             for s, (t, cells, formulas) in enumerate(plan):
                 allc = set(cells) | set(formulas)
                 W = max([c for c, _ in allc] or [0])
@@ -117,6 +149,20 @@ def run(tier, seed):
     finally:
         shutil.rmtree(d, ignore_errors=True)
     return chk.finish()
+
+
+def stale_dimension(path):
+    """rewrite every worksheet's <dimension> record to A1, leaving the cells as they are"""
+    import re
+    import zipfile
+    tmp = path + '.tmp'
+    with zipfile.ZipFile(path) as zin, zipfile.ZipFile(tmp, 'w', zipfile.ZIP_DEFLATED) as zout:
+        for item in zin.infolist():
+            data = zin.read(item.filename)
+            if item.filename.startswith('xl/worksheets/') and item.filename.endswith('.xml'):
+                data = re.sub(rb'<dimension ref="[^"]*"\s*/>', b'<dimension ref="A1"/>', data)
+            zout.writestr(item, data)
+    os.replace(tmp, path)
 
 
 def col(n):
